@@ -63,6 +63,12 @@ def cases(tier, seed):
         k = rng.randrange(2, 31)
         fl = gen_flows(rng, k)
         yield dict(kind='irr', flows=fl)
+        if k >= 3 and i % 2 == 0:
+            # a period without a cash flow (a zero) between the outlay and the last return still counts as a period
+            z = list(fl)
+            z[rng.randrange(1, k - 1)] = 0
+            if sum(z) > 0:
+                yield dict(kind='irr', flows=z)
         days = [43831]
         for _ in range(k - 1):
             days.append(days[-1] + rng.randrange(1, 400))
